@@ -65,6 +65,9 @@ def main(tier, seed):
         R('shared3', fm.shared3(**bf), invariants=inv, simulate=3000 if q else 50000),
         R('wide', fm.wide(**bf), invariants=inv, simulate=2500 if q else 40000),
         R('wide-hr', fm.wide(na=2, **bf), invariants=inv, simulate=1500 if q else 20000),
+        R('2 students, ranks up to 5', fm.five_long(**bf), invariants=inv, simulate=3000 if q else 40000),
+        R('3 students x 4 projects, rank 4', fm.three_by_four(**bf), invariants=inv, simulate=2000 if q else 30000),
+        R('5 students', fm.five_students(**bf), invariants=inv, simulate=600 if q else 8000),
     ]
     for r in runs:
         r['worker'] = replay_bf
